@@ -10,7 +10,7 @@ EXPLANATION = ('Static rules on the conversion sinks and the completion status: 
                'sends at least one message on every path; R2 the stream ends after a terminal (end marker sent, or poll_next maps the closed '
                'channel to Ready(None) and constructs Pending only by propagating the inner poll); R3 StatusFuture::poll registers its waker '
                'before the flag read that decides Pending (no lost wake-up); R4 the producer stores the flag before wake(), after the '
-               'downstream terminal; R5 future observer complete = send then close; R7 the sinks report finished only when the waiting side dropped the channel (otherwise a hot source skips them at its terminal and the future never resolves); R6 the message sent by error() carries the err argument on every path (the outcome reported is the error of the source). Decides the hand-off protocol; does not decide which '
+               'downstream terminal; R5 future observer complete = send then close; R10 the values complete()/error() store into the status flag (and its initial value) are read by is_closed/is_completed/error_occur as documented (truth table over the three flag values; wait_for_end decides through is_closed); R7 the sinks report finished only when the waiting side dropped the channel (otherwise a hot source skips them at its terminal and the future never resolves); R6 the message sent by error() carries the err argument on every path (the outcome reported is the error of the source). Decides the hand-off protocol; does not decide which '
                'value is produced (Empty/MultipleValues logic).')
 ASSUMPTIONS = ['futures unbounded channel and AtomicWaker behave as documented (a message sent before the sender is dropped is received; wake() after register() wakes)']
 
@@ -48,7 +48,7 @@ def check(cx):
 
 
 def _check_own(cx):
-    return r1_r5(cx) + r2(cx) + r3(cx) + r4(cx) + r6(cx) + r7(cx) + r8(cx) + r9(cx)
+    return r1_r5(cx) + r2(cx) + r3(cx) + r4(cx) + r6(cx) + r7(cx) + r8(cx) + r9(cx) + r10(cx)
 
 
 def r1_r5(cx):
@@ -388,6 +388,85 @@ def r8(cx):
                     res.append(Finding(ID, 'R8', label, True, 'non-terminal writer stores a value every predicate reads as running (or the value cannot be resolved statically)', g.loc(x)))
     if not cx.control and n < 1:
         res.append(Finding(ID, 'R8', 'floor', False, 'no writer of the status flag found'))
+    return res
+
+
+# what each status query must answer in the three states of the flag (the documented meaning of the queries)
+STATUS_MEANING = {
+    'is_closed': {'running': False, 'complete': True, 'error': True},
+    'is_completed': {'running': False, 'complete': True, 'error': False},
+    'error_occur': {'running': False, 'complete': False, 'error': True},
+}
+
+
+def r10(cx):
+    """complete_status reports the real outcome: the values complete() and error() of the status observer store into the flag (and
+    the value it starts with) are read by is_closed / is_completed / error_occur as their documentation says — a truth table over
+    the three values the flag can hold; wait_for_end decides through is_closed, so an outcome it does not recognise hangs the waiter"""
+    from ..core import const_int
+    F = cx.facts
+    res = []
+    if cx.control:
+        return res
+    for adt, (obs, preds) in STATUS.items():
+        fields = [f for f, t in roles.adt_fields(cx, adt) if F.tystr(t).startswith('std::sync::atomic::Atomic')]
+        if len(fields) != 1:
+            res.append(Finding(ID, 'R10', 'table:' + adt, False, 'expected exactly one atomic flag field'))
+            continue
+        flag = fields[0]
+
+        def flag_store(x):
+            if x['kind'] != 'call' or not x['name'].startswith('std::sync::atomic::') or x['name'].rsplit('::', 1)[-1] not in _WRITERS or not x['args']:
+                return False
+            root, steps = access_path(x['args'][0])
+            plain = [st for st in steps if not st.startswith(('@', '!', 'as ', '['))]
+            return bool(plain) and plain[-1] == flag
+        vals = {'running': None}
+        # the initial value: the flag is built by Default (0) unless a constructor names another value
+        news = set()
+        for fn in F.fns.values():
+            if 'complete_status' not in fn.get('file', ''):
+                continue
+            g = cx.graph(fn['key'], inline=False)
+            for x in g.nodes:
+                if x['kind'] == 'call' and x['name'].startswith('std::sync::atomic::') and x['name'].endswith('::new') and x['args']:
+                    news.add(const_int(x['args'][0]))
+        vals['running'] = 0 if not news else (list(news)[0] if len(news) == 1 else None)
+        for im in cx.observer_impls():
+            if roles.impl_tag(cx, im) != obs:
+                continue
+            for meth in ('error', 'complete'):
+                fn = cx.method(im, meth)
+                g = cx.graph(fn['key'])
+                cs = set()
+                for x in g.nodes:
+                    if flag_store(x):
+                        tail = x['name'].rsplit('::', 1)[-1]
+                        vexpr = x['args'][2] if tail.startswith('compare_exchange') and len(x['args']) > 2 else (x['args'][1] if len(x['args']) > 1 else None)
+                        cs.add(const_int(vexpr) if vexpr is not None and tail in ('store', 'swap', 'compare_exchange', 'compare_exchange_weak') else None)
+                vals[meth] = list(cs)[0] if len(cs) == 1 else None
+        n = 0
+        for fn in sorted(F.fns.values(), key=lambda f: f['key']):
+            im = F.impl_of_fn(fn)
+            if im is None or roles.impl_tag(cx, im) != adt or fn.get('name') not in preds or fn.get('name') not in STATUS_MEANING:
+                continue
+            g = cx.graph(fn['key'], forward=True)
+            rets = [x['rhs'] for x in g.nodes if x['kind'] == 'assign' and not x['ctx'] and x['lhs'][0] == 'local' and x['lhs'][1] == 0]
+            if len(rets) != 1:
+                continue   # not a single expression: undecided
+            n += 1
+            wrong = []
+            for state, c in sorted(vals.items()):
+                if c is None:
+                    continue
+                v = _eval_pred(rets[0], c)
+                if v is not None and bool(v) != STATUS_MEANING[fn['name']][state]:
+                    wrong.append('%s() answers %s when the flag holds %d (%s)' % (fn['name'], bool(v), c, {'running': 'source still running', 'complete': 'stored by complete()', 'error': 'stored by error()'}[state]))
+            res.append(Finding(ID, 'R10', cx.label(fn), not wrong,
+                               ('the status query misreads an outcome: ' + '; '.join(wrong) + (' — wait_for_end never returns for that outcome' if fn['name'] == 'is_closed' else '')) if wrong else
+                               'agrees with the values the terminal methods store (running=%s complete=%s error=%s)' % (vals.get('running'), vals.get('complete'), vals.get('error')), fn['span']))
+        if n < 3:
+            res.append(Finding(ID, 'R10', 'floor:' + adt, n >= 1, 'only %d of the 3 status queries are single expressions over the flag (the others are undecided)' % n))
     return res
 
 
